@@ -113,7 +113,17 @@ fn main() {
         std::thread::Builder::new().name("main".to_string()).spawn(move || { let r = f(); let _ = tx.send(r); }).unwrap();
         match rx.recv_timeout(std::time::Duration::from_secs(30)) {
             Ok(res) => println!("{}\t{}\t{}", name, res, take_log()),
-            Err(_) => println!("{}\tBLOCKED\t{}", name, take_log()),
+            Err(_) => { println!("{}\tBLOCKED\t{}", name, take_log()); continue; }
+        }
+        // `…_2` programs: the same call site once more (its gates are open by now; the task-spawning kinds get a new tokio
+        // runtime): it must return what it returned the first time
+        if name.ends_with("_2") {
+            let (tx, rx) = std::sync::mpsc::channel();
+            std::thread::Builder::new().name("main".to_string()).spawn(move || { let r = f(); let _ = tx.send(r); }).unwrap();
+            match rx.recv_timeout(std::time::Duration::from_secs(30)) {
+                Ok(res) => println!("{}#2\t{}\t{}", name, res, take_log()),
+                Err(_) => println!("{}#2\tBLOCKED\t{}", name, take_log()),
+            }
         }
     }
 }
@@ -414,6 +424,8 @@ def body(ctx, kinds=("a1t0s0", "a1t1s0", "a1t0s1", "a1t1s1"), n=None, profiles=N
             progs.append(gen_async(ctx.rng, "p%d" % len(progs), kind, profile=prof, **params))
     for i, p in enumerate(progs):
         p.base = 1000 * (i + 1)
+        if i % 3 == 1 and not p.pid.endswith("_2"):
+            p.pid += "_2"          # executed twice (see MAIN_ASYNC)
     # reference: the sync counterpart's semantics on the same structure
     cases = [(p.pid, p.kind, p.macro_input(), "k2async") for p in progs]
     reals = k1.run_real(cases)
@@ -472,6 +484,12 @@ def body(ctx, kinds=("a1t0s0", "a1t1s0", "a1t0s1", "a1t1s1"), n=None, profiles=N
     for p in progs:
         rl = got.get(p.pid, "MISSING\t")
         problems = judge(p, rl, spec[p.pid])
+        if p.pid.endswith("_2") and not problems:
+            r2 = got.get(p.pid + "#2", "MISSING\t").split("\t")[0]
+            r1 = rl.split("\t")[0]
+            # (a second run of a program in which a chain fails may return another chain's failure: only compare when nothing fails)
+            if nothing_fails(p) and r2 != r1:
+                problems.append("second execution of the same call site returned %r, the first one %r" % (r2[:200], r1[:200]))
         if p.pid in predicted and p.is_spawn() and not p.no_runtime():
             d = batch_diff(p, rl, predicted[p.pid])
             ctx.out.coverage["batch_level_compared_tokio"] = ctx.out.coverage.get("batch_level_compared_tokio", 0) + 1
